@@ -3,4 +3,5 @@ CONSTANTS
   N = 2
   Rad = 1
   Bug = 6
+CHECK_DEADLOCK FALSE
 INVARIANTS ContainsLaw
